@@ -170,7 +170,7 @@ prop('C06',
                  'correctly; reported moments equal the closed-form moments.')
 
 prop('C07',
-     [layout.r07_1, layout.r07_3, layout.r07_4, iface.r02_7, rng.r16_2,
+     [layout.r07_1, layout.r07_3, layout.r07_4, layout.r07_5, iface.r02_7, rng.r16_2,
       popmodels.r05_2, layout.r02_3],
      undecided=['sort stability of np.argsort for large selections',
                 'numerical equality with the per-individual evaluation'],
